@@ -102,7 +102,14 @@ func (r *ring) NextWriteCmd() (one Completed, multi []Completed, ch chan RedisRe
 	r.read1++
 	p := r.read1 & r.mask
 	n := &r.store[p]
-	n.c1.L.Lock()
+	if !n.c1.L.(*sync.Mutex).TryLock() {
+		// The slot is busy, typically because the reader holds it from NextResultCh to FinishResult while it
+		// collects the replies of the previous lap. Blocking here would keep the writer from flushing what it
+		// has already buffered, and those may be the very commands the reader is waiting for (a deadlock once
+		// the ring is full). Report "nothing to write now": the writer flushes and then waits in WaitForWrite.
+		r.read1--
+		return
+	}
 	if n.mark == 1 {
 		one, multi, ch = n.one, n.multi, n.ch
 		n.mark = 2
